@@ -1,6 +1,23 @@
 use crate::{DbIndex, LuaType, get_real_type};
 
+/// Recursive aliases (`---@alias A B|string`, `---@alias B A|number`) lead the walk over union members
+/// back to the same alias; past this depth the source is kept as it is.
+const MAX_INTERSECT_TYPE_DEPTH: u32 = 10;
+
 pub fn intersect_type(db: &DbIndex, source: LuaType, target: LuaType) -> LuaType {
+    intersect_type_with_depth(db, source, target, 0)
+}
+
+fn intersect_type_with_depth(
+    db: &DbIndex,
+    source: LuaType,
+    target: LuaType,
+    depth: u32,
+) -> LuaType {
+    if depth >= MAX_INTERSECT_TYPE_DEPTH {
+        return source;
+    }
+
     let real_type = get_real_type(db, &source).unwrap_or(&source);
 
     match (&real_type, &target) {
@@ -85,7 +102,8 @@ pub fn intersect_type(db: &DbIndex, source: LuaType, target: LuaType) -> LuaType
             let mut result_types = Vec::new();
 
             for left_type in left_types {
-                let intersected = intersect_type(db, left_type, right.clone());
+                let intersected =
+                    intersect_type_with_depth(db, left_type, right.clone(), depth + 1);
                 if !matches!(intersected, LuaType::Never) {
                     result_types.push(intersected);
                 }
@@ -103,7 +121,8 @@ pub fn intersect_type(db: &DbIndex, source: LuaType, target: LuaType) -> LuaType
             let mut result_types = Vec::new();
 
             for right_type in right_types {
-                let intersected = intersect_type(db, real_type.clone(), right_type);
+                let intersected =
+                    intersect_type_with_depth(db, real_type.clone(), right_type, depth + 1);
                 if !matches!(intersected, LuaType::Never) {
                     result_types.push(intersected);
                 }
@@ -123,7 +142,12 @@ pub fn intersect_type(db: &DbIndex, source: LuaType, target: LuaType) -> LuaType
 
             for left_type in left_types {
                 for right_type in &right_types {
-                    let intersected = intersect_type(db, left_type.clone(), right_type.clone());
+                    let intersected = intersect_type_with_depth(
+                        db,
+                        left_type.clone(),
+                        right_type.clone(),
+                        depth + 1,
+                    );
                     if !matches!(intersected, LuaType::Never) {
                         result_types.push(intersected);
                     }
